@@ -14,12 +14,23 @@ PCS = 'crypto::cose::sign::pad_cose_sig'
 PTS = 'assertions::data_hash::DataHash::pad_to_size'
 
 
+def param_named(fn, typred):
+    """Source name of the unique parameter whose type satisfies typred (the rules identify the target-size parameter by position in the signature's types,
+    not by what it is called, so renaming it is not an alarm)."""
+    c = [l for l in range(1, fn.argc + 1) if typred(fn.local_ty(l).replace('std::option::', '').replace('core::option::', ''))]
+    return fn.name_of(c[0]) if len(c) == 1 else None
+
+
 def run(ctx):
     prog = ctx.prog(('c2pa',))
     T = Terms(prog)
     if ctx.require(prog.has(PCS), PCS):
         fn = prog.fn(PCS)
         ctx.analysed(PCS, len(list(fn.calls())))
+        es = param_named(fn, lambda t: t == 'Option<usize>')
+        if not ctx.require(es is not None, PCS + ' (one Option<usize> target-size parameter)'):
+            return
+        ES = re.escape(es)
         eng, hits = ret_hits(fn)
         ctx.states += eng.states
         n = 0
@@ -27,8 +38,8 @@ def run(ctx):
             L = fact_literals(T, fn, facts)
             if cls == 'Ok':
                 n += 1
-                none = any(re.match(r'^!ok\(end_size\)$|^discr\(end_size\)=0$', l) for l in L)
-                eq = any(re.match(r'^eq\((Vec::len|len)\(.*\),end_size\.Some\.0\)$', l) for l in L)
+                none = any(re.match(r'^!ok\(%s\)$|^discr\(%s\)=0$' % (ES, ES), l) for l in L)
+                eq = any(re.match(r'^eq\((Vec::len|len)\(.*\),%s\.Some\.0\)$' % ES, l) for l in L)
                 ctx.ob('C14-D1', PCS, 'return Ok(bytes) [%d]' % n, 'end_size = None, or len(bytes) == end_size established', none or eq, detail=str(sorted(L))[:300])
                 if eq:
                     vt = T.atom_term(fn, env.get(0))
@@ -43,7 +54,7 @@ def run(ctx):
             for dst, rv in b['s']:
                 if rv['k'] == 'bin' and rv['op'] == 'Gt':
                     ta, tb = T.op_term(fn, rv['a']), T.op_term(fn, rv['b'])
-                    if 'PAD_OFFSET' in ta and 'end_size' in tb:
+                    if 'PAD_OFFSET' in ta and re.search(r'\b%s\b' % ES, tb):
                         sw = b['t']
                         if sw['k'] == 'switch':
                             tgt = sw['o'] if sw['ts'] and sw['ts'][0][0] == 0 else [tb_ for v, tb_ in sw['ts'] if v != 0][0]
@@ -62,6 +73,9 @@ def run(ctx):
     if ctx.require(prog.has(PTS), PTS):
         fn = prog.fn(PTS)
         ctx.analysed(PTS, len(list(fn.calls())))
+        ds = param_named(fn, lambda t: t == 'usize')
+        if not ctx.require(ds is not None, PTS + ' (one usize target-size parameter)'):
+            return
         eng, hits = ret_hits(fn)
         ctx.states += eng.states
         n = 0
@@ -72,7 +86,7 @@ def run(ctx):
                 from terms import canon_lit
                 Lc = [canon_lit(l) for l in L]
                 # any spelling of the equality: eq(a,b) true, or ne(a,b) false (`while a != b`), operands in either order
-                eq = any(re.match(r'^eq\(.*\)$', l) and 'desired_size' in l for l in Lc) or any(re.match(r'^!ne\(.*\)$', l) and 'desired_size' in l for l in Lc)
+                eq = any(re.match(r'^eq\(.*\)$', l) and re.search(r'\b%s\b' % re.escape(ds), l) for l in Lc) or any(re.match(r'^!ne\(.*\)$', l) and re.search(r'\b%s\b' % re.escape(ds), l) for l in Lc)
                 ctx.ob('C14-D2', PTS, 'return Ok(()) [%d]' % n, 'curr_size == desired_size established', eq, detail=str(sorted(L))[:300])
         ctx.floor('Ok returns of pad_to_size', n, 1, rule='C14-D2')
         errs = [1 for b in fn.B for dst, rv in b['s'] if dst['l'] == 0 and rv['k'] == 'agg' and rv.get('variant') == 'Err']
